@@ -43,6 +43,7 @@ type FlowOpts struct {
 	Generations  int  // incarnations (1: no restart)
 	FaultFreeAfterStop bool
 	StopW        int // weight of the environment action "stop the process"
+	Constructed  bool // the first incarnation is replaced by a constructed disk image (identifier wrap-around)
 	FSStore      bool // the session runs on the FileSystem store over the simulated os
 	FSStopCalls  int  // the kill lands within this many system calls of the incarnation
 	HostileN     int // hostile injections per run
